@@ -238,7 +238,8 @@ HARNESSES = {
             "objects are zeroed by the caller after destroy before reuse; init is only applied to objects that own nothing",
             "dimension names passed to set_dimension are NUL-terminated C strings (documented); other strings may be unterminated, exact-size heap blocks",
             "released blocks are zero-filled and quarantined by the interposed allocator (use after release is an oracle failure); realloc always moves",
-            "AddressSanitizer (clang 14) reports out-of-bounds accesses; leaks are judged by the ledger, not LeakSanitizer"]},
+            "AddressSanitizer (clang 14) reports out-of-bounds accesses; leaks are judged by the ledger, not LeakSanitizer",
+            "an injected allocation failure (one-shot, n-th request) leaves the values of the object it hit unspecified: only structural validity, absence of leaks and releasability are judged for it until it is destroyed or fully overwritten by a copy"]},
         "quick": {"rc_cases": 40000, "rc_size": 40},
         "thorough": {"rc_cases": 600000, "rc_size": 60, "fz_secs": 120},
     },
